@@ -39,8 +39,14 @@ constexpr auto sinh_check(T const x) noexcept -> T
                                                        // x + x^3/3! + x^5/5! + x^7/7! (next term < 3e-22 |x|)
             T(0.01) > abs(x) ? x * (T(1) + x * x * (T(1) / T(6) + x * x * (T(1) / T(120) + x * x / T(5040))))
                              :
-                             // else
-            (exp(x) - exp(-x)) / T(2)
+                             // within one binade of the overflow threshold of exp: exp(|x|) may overflow although
+                             // exp(|x|) / 2 is representable, and exp(-|x|) is far below half an ulp of exp(|x|):
+                             // sinh(x) = +-(exp(|x| / 2) / 2) * exp(|x| / 2)
+            abs(x) > T(etl::numeric_limits<T>::max_exponent - 1) * T(GCEM_LOG_2)
+                ? (x < T(0) ? -(exp(-x / T(2)) / T(2)) * exp(-x / T(2)) : (exp(x / T(2)) / T(2)) * exp(x / T(2)))
+                :
+                // else
+                (exp(x) - exp(-x)) / T(2)
     );
 }
 
